@@ -815,12 +815,12 @@ func (e *wireExec) step(s *XStep) {
 // extraction).
 func (e *wireExec) textMut(s *XStep) {
 	o := e.o
-	mutate := func(in string) string {
+	mutate1 := func(in string, pos int) string {
 		b := []byte(in)
 		if len(b) == 0 {
 			return string([]byte{byte(s.Val)})
 		}
-		at := s.At % len(b)
+		at := pos % len(b)
 		switch s.Kind {
 		case "insert":
 			b = append(b[:at:at], append([]byte{byte(s.Val)}, b[at:]...)...)
@@ -832,6 +832,44 @@ func (e *wireExec) textMut(s *XStep) {
 			b[at] = byte(s.Val)
 		}
 		return string(b)
+	}
+	// one to three mutations of the same kind at positions derived from the step
+	mutate := func(in string) string {
+		out := mutate1(in, s.At)
+		for i := 1; i <= (s.At/1000+s.Val/16)%3 && len(out) < 4096; i++ {
+			out = mutate1(out, s.At/(i+1)+i)
+		}
+		return out
+	}
+	// sweep: every single position (and, for short texts, every pair of positions) for the
+	// step's mutation kind and byte, all inside one guarded call; a panic names its input
+	sweep := func(entry, src string, use func(m string)) {
+		cur := ""
+		n := 0
+		guardT(o, entry, len(src)+2, false, func() {
+			defer func() {
+				if r := recover(); r != nil {
+					panic(fmt.Sprintf("%v [input %q]", r, cur))
+				}
+			}()
+			for at := 0; at <= len(src); at++ {
+				cur = mutate1(src, at)
+				use(cur)
+				n++
+				if len(src) <= 14 {
+					m1 := cur
+					for at2 := 0; at2 <= len(m1); at2++ {
+						cur = mutate1(m1, at2)
+						use(cur)
+						n++
+					}
+				}
+			}
+		})
+		for i := 0; i < n; i += 64 {
+			o.Eval("C09")
+			o.Fault("text_mutation")
+		}
 	}
 	// argument data to match / select against: the invocation's own arguments, if any
 	var argNode datamodel.Node
@@ -878,6 +916,11 @@ func (e *wireExec) textMut(s *XStep) {
 			if err != nil {
 				continue
 			}
+			sweep("policy.FromDagJson / Match (every position)", string(js), func(m string) {
+				if pol, err := policy.FromDagJson(m); err == nil {
+					pol.Match(argNode)
+				}
+			})
 			m := mutate(string(js))
 			var pol policy.Policy
 			var perr error
@@ -898,7 +941,8 @@ func (e *wireExec) textMut(s *XStep) {
 	case "selector":
 		sels := []string{".", ".a", ".a.b", ".l[0]", ".l[-1]", ".l[1:3]", ".m.x?", ".l[]", ".s[0:2]", `.["a b"]`, ".a?.b?", ".l[:]", ".l[-9223372036854775808:9223372036854775807]",
 			".s[0:]", ".s[1:]", ".s[-1:]", ".s[:-1]", ".s[-100:100]", ".s[5:2]", ".a[2:]", ".b[0:99]", ".b[-1]", ".b[1:]", ".l[9223372036854775807]", ".l[-9223372036854775808]", ".l[3:1]", ".l[-6]", ".l[5]",
-			".m.y[1:]", ".l[3][-2:]", ".e[0:]", ".el[0]?", ".el[-1]?", ".s[-43:]", ".s[:41]"}
+			".m.y[1:]", ".l[3][-2:]", ".e[0:]", ".el[0]?", ".el[-1]?", ".s[-43:]", ".s[:41]",
+			`.[""]`, `.["a"]`, `.m["x"]?`, `.["a"]["b"]`, `.["\""]`, `.["a\\b"]`, `.["]"]`, `.m[ "x" ]`, ".l[ 1 ]", ".l[1 : 2]", ".l[+1]", ".l[0x1]", ".l[1e2]", ".l[--1]", ".l[:]?", ".l[::]", "..", ".?", ".a??", ".[]", ".[]?", ".[][]"}
 		for _, w := range e.toks {
 			if w == nil || w.spec.Kind != "dlg" {
 				continue
@@ -915,6 +959,12 @@ func (e *wireExec) textMut(s *XStep) {
 			walk(w.spec.Dlg.Pol)
 		}
 		src := sels[s.At%len(sels)]
+		sweep("selector.Parse / Select (every position)", src, func(m string) {
+			if sel, err := selector.Parse(m); err == nil {
+				_, _ = sel.Select(argNode)
+				_ = sel.String()
+			}
+		})
 		m := mutate(src)
 		if s.Val%5 == 0 {
 			m = src // also the unmutated, unusual forms
@@ -938,6 +988,12 @@ func (e *wireExec) textMut(s *XStep) {
 		})
 	case "did":
 		w := e.tok(s.Tok)
+		sweep("did.Parse / PubKey (every position)", w.issuer, func(m string) {
+			if d, err := did.Parse(m); err == nil {
+				_, _ = d.PubKey()
+				_ = d.String()
+			}
+		})
 		m := mutate(w.issuer)
 		var d did.DID
 		var derr error
